@@ -143,8 +143,10 @@ Section Trav1.
     pose proof (step_policy_apply_filter sc Qt Cn Cn_refl s (p_id p)) as P.
     destruct (policy_apply_filter sc s (p_id p)) as [s1 f1]. cbn [fst] in P.
     destruct (match f1 with FPass => _ | _ => _ end); try cs.
-    pose proof (c_kubectl_apply s1 l) as K. destruct (kubectl_apply sc s1 l) as [s2 r]. cbn [fst] in K.
-    pose proof (c_tr _ _ _ P K) as PK. destruct r; cs.
+    pose proof (step_mutate sc Qt Cn Cn_refl Cn_trans s1 l) as M. destruct (mutate sc s1 l) as [sm okm]. cbn [fst] in M.
+    pose proof (c_tr _ _ _ P M) as PM. destruct okm; cbn [negb]; [|cs].
+    pose proof (c_kubectl_apply sm l) as K. destruct (kubectl_apply sc sm l) as [s2 r]. cbn [fst] in K.
+    pose proof (c_tr _ _ _ PM K) as PK. destruct r; cs.
   Qed.
 
   Lemma c_prune_one pl locals g uids s p : o_prune (sc_opts sc) = true ->
